@@ -34,6 +34,42 @@ Spec/Geometry.vos Spec/Geometry.vok Spec/Geometry.required_vos: Spec/Geometry.v 
 Spec/C02Spec.vo Spec/C02Spec.glob Spec/C02Spec.v.beautified Spec/C02Spec.required_vo: Spec/C02Spec.v Model/Aliquot.vo Spec/Geometry.vo
 Spec/C02Spec.vio: Spec/C02Spec.v Model/Aliquot.vio Spec/Geometry.vio
 Spec/C02Spec.vos Spec/C02Spec.vok Spec/C02Spec.required_vos: Spec/C02Spec.v Model/Aliquot.vos Spec/Geometry.vos
-Properties/C02.vo Properties/C02.glob Properties/C02.v.beautified Properties/C02.required_vo: Properties/C02.v Model/Aliquot.vo Spec/Geometry.vo Spec/C02Spec.vo
-Properties/C02.vio: Properties/C02.v Model/Aliquot.vio Spec/Geometry.vio Spec/C02Spec.vio
-Properties/C02.vos Properties/C02.vok Properties/C02.required_vos: Properties/C02.v Model/Aliquot.vos Spec/Geometry.vos Spec/C02Spec.vos
+Model/Trs.vo Model/Trs.glob Model/Trs.v.beautified Model/Trs.required_vo: Model/Trs.v Engine/Regex.vo Gen/Patterns.vo PyRt/Str.vo Gen/Tables.vo
+Model/Trs.vio: Model/Trs.v Engine/Regex.vio Gen/Patterns.vio PyRt/Str.vio Gen/Tables.vio
+Model/Trs.vos Model/Trs.vok Model/Trs.required_vos: Model/Trs.v Engine/Regex.vos Gen/Patterns.vos PyRt/Str.vos Gen/Tables.vos
+Extract/DispTrs.vo Extract/DispTrs.glob Extract/DispTrs.v.beautified Extract/DispTrs.required_vo: Extract/DispTrs.v Engine/Regex.vo PyRt/Str.vo Extract/Val.vo Extract/DispBase.vo Model/Trs.vo
+Extract/DispTrs.vio: Extract/DispTrs.v Engine/Regex.vio PyRt/Str.vio Extract/Val.vio Extract/DispBase.vio Model/Trs.vio
+Extract/DispTrs.vos Extract/DispTrs.vok Extract/DispTrs.required_vos: Extract/DispTrs.v Engine/Regex.vos PyRt/Str.vos Extract/Val.vos Extract/DispBase.vos Model/Trs.vos
+Extract/Drv_trs.vo Extract/Drv_trs.glob Extract/Drv_trs.v.beautified Extract/Drv_trs.required_vo: Extract/Drv_trs.v Engine/Regex.vo Extract/Val.vo Extract/DispBase.vo Extract/DispTrs.vo
+Extract/Drv_trs.vio: Extract/Drv_trs.v Engine/Regex.vio Extract/Val.vio Extract/DispBase.vio Extract/DispTrs.vio
+Extract/Drv_trs.vos Extract/Drv_trs.vok Extract/Drv_trs.required_vos: Extract/Drv_trs.v Engine/Regex.vos Extract/Val.vos Extract/DispBase.vos Extract/DispTrs.vos
+Spec/C12Spec.vo Spec/C12Spec.glob Spec/C12Spec.v.beautified Spec/C12Spec.required_vo: Spec/C12Spec.v Engine/Regex.vo PyRt/Str.vo Gen/Tables.vo Model/Trs.vo
+Spec/C12Spec.vio: Spec/C12Spec.v Engine/Regex.vio PyRt/Str.vio Gen/Tables.vio Model/Trs.vio
+Spec/C12Spec.vos Spec/C12Spec.vok Spec/C12Spec.required_vos: Spec/C12Spec.v Engine/Regex.vos PyRt/Str.vos Gen/Tables.vos Model/Trs.vos
+Proofs/C12/Finite.vo Proofs/C12/Finite.glob Proofs/C12/Finite.v.beautified Proofs/C12/Finite.required_vo: Proofs/C12/Finite.v Engine/Regex.vo Gen/Patterns.vo PyRt/Str.vo Gen/Tables.vo Model/Trs.vo Spec/C12Spec.vo
+Proofs/C12/Finite.vio: Proofs/C12/Finite.v Engine/Regex.vio Gen/Patterns.vio PyRt/Str.vio Gen/Tables.vio Model/Trs.vio Spec/C12Spec.vio
+Proofs/C12/Finite.vos Proofs/C12/Finite.vok Proofs/C12/Finite.required_vos: Proofs/C12/Finite.v Engine/Regex.vos Gen/Patterns.vos PyRt/Str.vos Gen/Tables.vos Model/Trs.vos Spec/C12Spec.vos
+Proofs/C02/TableSpecs.vo Proofs/C02/TableSpecs.glob Proofs/C02/TableSpecs.v.beautified Proofs/C02/TableSpecs.required_vo: Proofs/C02/TableSpecs.v Engine/Regex.vo PyRt/Str.vo Gen/Tables.vo Model/Aliquot.vo Spec/Geometry.vo
+Proofs/C02/TableSpecs.vio: Proofs/C02/TableSpecs.v Engine/Regex.vio PyRt/Str.vio Gen/Tables.vio Model/Aliquot.vio Spec/Geometry.vio
+Proofs/C02/TableSpecs.vos Proofs/C02/TableSpecs.vok Proofs/C02/TableSpecs.required_vos: Proofs/C02/TableSpecs.v Engine/Regex.vos PyRt/Str.vos Gen/Tables.vos Model/Aliquot.vos Spec/Geometry.vos
+Proofs/C02/Standardize.vo Proofs/C02/Standardize.glob Proofs/C02/Standardize.v.beautified Proofs/C02/Standardize.required_vo: Proofs/C02/Standardize.v Engine/Regex.vo PyRt/Str.vo Model/Aliquot.vo Spec/Geometry.vo Proofs/C02/TableSpecs.vo
+Proofs/C02/Standardize.vio: Proofs/C02/Standardize.v Engine/Regex.vio PyRt/Str.vio Model/Aliquot.vio Spec/Geometry.vio Proofs/C02/TableSpecs.vio
+Proofs/C02/Standardize.vos Proofs/C02/Standardize.vok Proofs/C02/Standardize.required_vos: Proofs/C02/Standardize.v Engine/Regex.vos PyRt/Str.vos Model/Aliquot.vos Spec/Geometry.vos Proofs/C02/TableSpecs.vos
+Proofs/C02/Tiling.vo Proofs/C02/Tiling.glob Proofs/C02/Tiling.v.beautified Proofs/C02/Tiling.required_vo: Proofs/C02/Tiling.v Model/Aliquot.vo Spec/Geometry.vo
+Proofs/C02/Tiling.vio: Proofs/C02/Tiling.v Model/Aliquot.vio Spec/Geometry.vio
+Proofs/C02/Tiling.vos Proofs/C02/Tiling.vok Proofs/C02/Tiling.required_vos: Proofs/C02/Tiling.v Model/Aliquot.vos Spec/Geometry.vos
+Proofs/C02/Subdivide.vo Proofs/C02/Subdivide.glob Proofs/C02/Subdivide.v.beautified Proofs/C02/Subdivide.required_vo: Proofs/C02/Subdivide.v Engine/Regex.vo PyRt/Str.vo Gen/Tables.vo Model/Aliquot.vo Spec/Geometry.vo Proofs/C02/TableSpecs.vo Proofs/C02/Tiling.vo
+Proofs/C02/Subdivide.vio: Proofs/C02/Subdivide.v Engine/Regex.vio PyRt/Str.vio Gen/Tables.vio Model/Aliquot.vio Spec/Geometry.vio Proofs/C02/TableSpecs.vio Proofs/C02/Tiling.vio
+Proofs/C02/Subdivide.vos Proofs/C02/Subdivide.vok Proofs/C02/Subdivide.required_vos: Proofs/C02/Subdivide.v Engine/Regex.vos PyRt/Str.vos Gen/Tables.vos Model/Aliquot.vos Spec/Geometry.vos Proofs/C02/TableSpecs.vos Proofs/C02/Tiling.vos
+Proofs/C02/Parse.vo Proofs/C02/Parse.glob Proofs/C02/Parse.v.beautified Proofs/C02/Parse.required_vo: Proofs/C02/Parse.v Engine/Regex.vo PyRt/Str.vo Model/Aliquot.vo Spec/Geometry.vo Proofs/C02/TableSpecs.vo Proofs/C02/Standardize.vo Proofs/C02/Tiling.vo Proofs/C02/Subdivide.vo
+Proofs/C02/Parse.vio: Proofs/C02/Parse.v Engine/Regex.vio PyRt/Str.vio Model/Aliquot.vio Spec/Geometry.vio Proofs/C02/TableSpecs.vio Proofs/C02/Standardize.vio Proofs/C02/Tiling.vio Proofs/C02/Subdivide.vio
+Proofs/C02/Parse.vos Proofs/C02/Parse.vok Proofs/C02/Parse.required_vos: Proofs/C02/Parse.v Engine/Regex.vos PyRt/Str.vos Model/Aliquot.vos Spec/Geometry.vos Proofs/C02/TableSpecs.vos Proofs/C02/Standardize.vos Proofs/C02/Tiling.vos Proofs/C02/Subdivide.vos
+Proofs/C02/Main.vo Proofs/C02/Main.glob Proofs/C02/Main.v.beautified Proofs/C02/Main.required_vo: Proofs/C02/Main.v Engine/Regex.vo PyRt/Str.vo Model/Aliquot.vo Spec/Geometry.vo Spec/C02Spec.vo Proofs/C02/TableSpecs.vo Proofs/C02/Standardize.vo Proofs/C02/Tiling.vo Proofs/C02/Subdivide.vo Proofs/C02/Parse.vo
+Proofs/C02/Main.vio: Proofs/C02/Main.v Engine/Regex.vio PyRt/Str.vio Model/Aliquot.vio Spec/Geometry.vio Spec/C02Spec.vio Proofs/C02/TableSpecs.vio Proofs/C02/Standardize.vio Proofs/C02/Tiling.vio Proofs/C02/Subdivide.vio Proofs/C02/Parse.vio
+Proofs/C02/Main.vos Proofs/C02/Main.vok Proofs/C02/Main.required_vos: Proofs/C02/Main.v Engine/Regex.vos PyRt/Str.vos Model/Aliquot.vos Spec/Geometry.vos Spec/C02Spec.vos Proofs/C02/TableSpecs.vos Proofs/C02/Standardize.vos Proofs/C02/Tiling.vos Proofs/C02/Subdivide.vos Proofs/C02/Parse.vos
+Properties/C02.vo Properties/C02.glob Properties/C02.v.beautified Properties/C02.required_vo: Properties/C02.v Spec/C02Spec.vo Proofs/C02/Main.vo
+Properties/C02.vio: Properties/C02.v Spec/C02Spec.vio Proofs/C02/Main.vio
+Properties/C02.vos Properties/C02.vok Properties/C02.required_vos: Properties/C02.v Spec/C02Spec.vos Proofs/C02/Main.vos
+Properties/C12.vo Properties/C12.glob Properties/C12.v.beautified Properties/C12.required_vo: Properties/C12.v Engine/Regex.vo PyRt/Str.vo Gen/Tables.vo Model/Trs.vo Spec/C12Spec.vo Proofs/C12/Finite.vo
+Properties/C12.vio: Properties/C12.v Engine/Regex.vio PyRt/Str.vio Gen/Tables.vio Model/Trs.vio Spec/C12Spec.vio Proofs/C12/Finite.vio
+Properties/C12.vos Properties/C12.vok Properties/C12.required_vos: Properties/C12.v Engine/Regex.vos PyRt/Str.vos Gen/Tables.vos Model/Trs.vos Spec/C12Spec.vos Proofs/C12/Finite.vos
